@@ -253,7 +253,9 @@ def do_check(prop, tier, args):
         budget = float(os.environ.get("VERIF_BUDGET_S", 600))
         deadline = t0 + budget
         agg = runner.Agg()
-        round_n = QUICK_RUNS.get(prop, 4000)
+        round_n = max(workers * 4, QUICK_RUNS.get(prop, 4000) // 8)
+        if prop in ("C12", "C13"):
+            round_n = workers * 2  # every seed is a whole sweep
         nxt = base
         while time.time() < deadline - 5 and len(agg.failures) < 10:
             a = run_batch(prop, tier, nxt, round_n, deadline, workers)
